@@ -51,11 +51,11 @@ def main():
     path = context_module.__file__
     try:
         table = locate(path, {int(k): tuple(v) for k, v in inp["marks"].items()})
+        mark_error = None
     except MarkError as e:
-        json.dump({"mark_error": str(e)}, sys.stdout)
-        return
+        table, mark_error = None, str(e)
     out = []
-    for run in inp["runs"]:
+    for run in (inp["runs"] if table is not None else []):
         solo = [base.run_op(prepared(ops, run["warm"]), ops[i]) for i in run["threads"]]
         inst = prepared(ops, run["warm"])
         sched = LineScheduler({path: table}, step_timeout=inp.get("step_timeout", 10.0))
@@ -94,8 +94,10 @@ def main():
         finally:
             sys.setswitchinterval(old)
         stress = {"rounds": st["rounds"], "mismatches": mism}
-    json.dump({"ambient": wd["ambient"], "order": wd["order"], "modules0": wd["modules0"], "runs": out,
-               "stress": stress}, sys.stdout)
+    res = {"ambient": wd["ambient"], "order": wd["order"], "modules0": wd["modules0"], "runs": out, "stress": stress}
+    if mark_error:
+        res["mark_error"] = mark_error
+    json.dump(res, sys.stdout)
 
 
 if __name__ == "__main__":
